@@ -43,6 +43,7 @@ inductive MStmt
   | ifNonZeroArr (f : String) (body : List MStmt)        -- if c.F != [n]T{0,…} { … }
   | ifWordCount (k : Nat) (body : List MStmt)            -- if c.GetParameters().WordCount == k { … }
   | subHead (f : String) (typ : String)                  -- marshalled field appended to the command bytes ahead of the parameter block (WriteRequest)
+  | zeros (b : Blk) (n : Nat)                            -- append(raw, 0x00, …, 0x00): n literal zero bytes (string terminator)
   deriving Repr, Inhabited
 
 /-- statements of an Unmarshal body (after the fixed prologue that splits the input into the
@@ -68,6 +69,8 @@ inductive UStmt
   | resliceD                            -- D = D[offset:]
   | ifWordCount (k : Nat) (body : List UStmt)
   | clear (f : String)                  -- c.F = []T{}
+  | zeroInt (f : String)                -- c.F = 0            (an optional field is reset before the word-count test)
+  | zeroInts (f : String) (n : Nat)     -- c.F = [n]T{0, …, 0}
   | makeInts (f g : String)             -- c.F = make([]T, c.G)
   | forCountInt (b : Blk) (w : Nat) (e : End) (f g : String)   -- for i < int(c.G) { c.F[i] = …; offset += w }
   | forRangeInt (b : Blk) (w : Nat) (e : End) (f : String)     -- for i := range c.F (fixed array)
@@ -208,6 +211,7 @@ def runMStmt (C : Codecs) (isAndX : Bool) (s : MState) : MStmt → Outcome MStat
       let (bs, v') ← C.enc typ v
       pure { s with head := s.head ++ bs, env := s.env.set f (.t v') }
     | _ => .err
+  | .zeros b n => .ok (s.app b (List.replicate n 0))
 def runMStmts (C : Codecs) (isAndX : Bool) (s : MState) : List MStmt → Outcome MState
   | [] => .ok s
   | st :: rest => do let s' ← runMStmt C isAndX s st; runMStmts C isAndX s' rest
@@ -395,6 +399,8 @@ def runUStmt (C : Codecs) (s : UState) : UStmt → Step UState
     liftO (fun st bs => { st with D := bs }) s (sliceFrom s.D s.offset)
   | .ifWordCount k body => if s.wordCount = k then runUStmts C s body else .next s
   | .clear f => .next { s with env := s.env.set f (.ts []) }
+  | .zeroInt f => .next { s with env := s.env.set f (.n 0) }
+  | .zeroInts f n => .next { s with env := s.env.set f (.ns (List.replicate n 0)) }
   | .makeInts f g =>
     match s.env.get g with
     | some (.n k) => .next { s with env := s.env.set f (.ns (List.replicate k 0)) }
